@@ -272,6 +272,19 @@ def _handler_cannot_mask(ctx, f, h: ast.ExceptHandler, label: str) -> None:
                     except ValueError:
                         fields = None
                     total = fields is not None and all(fld.split(".")[0].split("[")[0] in {k.arg for k in n.keywords} and not spec and "[" not in fld for fld, spec in fields)
+            if not total and last == "format" and isinstance(n.func, ast.Attribute) and not n.keywords:
+                # "<template>".format(a, b): total when the constant template has exactly one plain field ({} / {!r} /
+                # {!s}, no format specification, no attribute / index access) per positional argument
+                tpl = expand(f, n.func.value)
+                if isinstance(tpl, ast.Constant) and isinstance(tpl.value, str):
+                    import string
+
+                    try:
+                        fields = [(fld, spec) for _, fld, spec, _ in string.Formatter().parse(tpl.value) if fld is not None]
+                    except ValueError:
+                        fields = None
+                    nargs = len(n.args) if not any(isinstance(a_, ast.Starred) for a_ in n.args) else None
+                    total = fields is not None and nargs is not None and len(fields) == nargs and all(fld == "" and not spec for fld, spec in fields)
             if not total:
                 bad.append((n, f"call `{norm(n)[:50]}`"))
     ctx.check(not bad, f.qual + f"#handler-total:{label}", "the handler only formats with !r / !s and adds notes: it cannot replace the original error" if not bad else f"the handler can raise before it re-raises - {bad[0][1]}: the model's exception (type, message, notes) would be replaced", where=f, node=bad[0][0] if bad else h)
@@ -329,7 +342,7 @@ def r3_annotation_present(ctx):
         if hs:
             _handler_cannot_mask(ctx, f, hs[0], f.name)
         notes = _notes(hs[0]) if ok else []
-        txt = " ".join(norm(n.args[0]) for n in notes if n.args)
+        txt = " ".join(norm(expand(f, n.args[0])) for n in notes if n.args)
         okn = ok and f.params[1] in txt
         ctx.check(okn, f.qual + "#note", "notes the decision vector" if okn else "the decision vector is not attached to the error", where=f, node=notes[0] if notes else t)
         bare = [x for x in walk_ordered(hs[0]) if isinstance(x, ast.Raise)] if ok else []
